@@ -66,6 +66,7 @@ func TestWorker(t *testing.T) {
 	maxViol := int(envInt("VERIF_MAX_VIOLATIONS", 3))
 	maxSamples := int(envInt("VERIF_SAMPLES", 2))
 	verbose := os.Getenv("VERIF_VERBOSE") != ""
+	runLimit := time.Duration(envInt("VERIF_RUN_LIMIT_S", 90)) * time.Second
 
 	agg := fw.NewAgg(sc.Property)
 	agg.FirstIndex = from
@@ -83,8 +84,17 @@ func TestWorker(t *testing.T) {
 		seed := fw.RunSeed(base, i)
 		// The driver attributes a dead worker to the last "begin" line.
 		fmt.Printf("begin index=%d seed=%d\n", i, seed)
+		// Watchdog on the real clock (armed outside the bubble): a run that does
+		// not come back - e.g. a task stuck on a sync.Mutex, which is not a
+		// durable block, so the simulator cannot even reach quiescence - ends
+		// the process; the driver then repeats the run alone to confirm.
+		wd := time.AfterFunc(runLimit, func() {
+			fmt.Printf("WATCHDOG: run index=%d seed=%d did not return within %v (hang)\n", i, seed, runLimit)
+			os.Exit(3)
+		})
 		tape := sim.NewTape(seed)
 		rc := fw.Execute(t, sc, tier, seed, i, tape, false)
+		wd.Stop()
 		agg.Add(rc, maxSamples)
 		agg.LastIndex = i
 		if rc.FullTrace != "" {
@@ -182,6 +192,12 @@ func replay(t *testing.T, sc *fw.Scenario, path string) {
 	n := int(envInt("VERIF_REPLAY_TIMES", 1))
 	same := 0
 	for i := 0; i < n; i++ {
+		limit := time.Duration(envInt("VERIF_RUN_LIMIT_S", 90)) * time.Second
+		wd := time.AfterFunc(limit, func() {
+			fmt.Printf("WATCHDOG: replayed run did not return within %v (hang)\n", limit)
+			os.Exit(3)
+		})
+		defer wd.Stop()
 		tape := sim.ReplayTape(rf.RunSeed, rf.Streams)
 		if rf.Regenerate {
 			tape = sim.NewTape(rf.RunSeed)
